@@ -107,7 +107,7 @@ def check(case, ctx):
     da = __import__("vp.boot", fromlist=["boot"]).boot()
     sp = case["a"]
     m = model.from_spec(sp)
-    a = gen.build(sp)
+    a = common.build_under_option(sp, ctx.outcomes)
     k = case["k"]
     d = m.dims[k]
     new = case["new"]
@@ -133,7 +133,7 @@ def check(case, ctx):
         tsp["values"] = np.zeros(tuple(len(l) for l in tsp["labels"]))
         t = gen.build(tsp, meta=False)
         label = "a.interp_like(template dims=%r labels=%s%s) a: dims=%r labels=%s" % (tuple(tsp["dims"]), codec.short(tsp["labels"], 100), kw or "", m.dims, codec.short(m.labels, 100))
-        res, exc = ctx.call(label, lambda: a.interp_like(t, **kw), operands=(a, t), meta='carry', meta_owner=ID)
+        res, exc = ctx.call(label, lambda: a.interp_like(t, **kw), operands=(a, t), meta='carry', meta_owner=ID, ambient=True)
         exp = m
         for dd in m.dims:
             if dd in tsp["dims"]:
@@ -149,7 +149,7 @@ def check(case, ctx):
     exp = np_interp_axis(m, k, new, left, right)
     if case["variant"] == 'array':
         label = "a.interp_axis(%s as %s, axis=%r%s) on %s%s labels[%r]=%s" % (codec.short(new, 80), case["form"], axis, kw or "", m.values.dtype, m.shape, d, codec.short(lab, 60))
-        res, exc = ctx.call(label, lambda: a.interp_axis(arg, axis=axis, **kw), operands=(a,), meta='carry', meta_owner=ID)
+        res, exc = ctx.call(label, lambda: a.interp_axis(arg, axis=axis, **kw), operands=(a,), meta='carry', meta_owner=ID, ambient=True)
         if common.expect(ctx, ID, "interp", label, res, exc, exp=exp, **tol):
             # exact at the nodes
             g = model.observe(res)
@@ -170,7 +170,7 @@ def check(case, ctx):
         specs[name] = e
     dsaxis = list(ds.dims).index(d) if case["by_pos"] else d
     label = "ds.interp_axis(%s, axis=%r%s) labels[%r]=%s vars=%s" % (codec.short(new, 80), dsaxis, kw or "", d, codec.short(lab, 60), {n: tuple(s["dims"]) for n, s in specs.items()})
-    res, exc = ctx.call(label, lambda: ds.interp_axis(arg if not case["form"].startswith('Axis') else arr, axis=dsaxis, **kw), operands=(ds,))
+    res, exc = ctx.call(label, lambda: ds.interp_axis(arg if not case["form"].startswith('Axis') else arr, axis=dsaxis, **kw), operands=(ds,), ambient=True)
     if exc is not None:
         ctx.v(ID, "dataset-raised:" + type(exc).__name__, "%s raised %s: %s" % (label, type(exc).__name__, str(exc)[:200]))
         return klass
@@ -179,7 +179,7 @@ def check(case, ctx):
         return klass
     # Dataset.interp_like with a template carrying the new axis
     tmpl = da.DimArray(np.zeros(len(new)), axes=[da.Axis(arr, d)])
-    res2, exc2 = ctx.call("ds.interp_like(template on %r)" % d, lambda: ds.interp_like(tmpl, **{k_: v_ for k_, v_ in kw.items() if k_ != 'issorted'}), operands=(ds, tmpl))
+    res2, exc2 = ctx.call("ds.interp_like(template on %r)" % d, lambda: ds.interp_like(tmpl, **{k_: v_ for k_, v_ in kw.items() if k_ != 'issorted'}), operands=(ds, tmpl), ambient=True)
     if exc2 is not None:
         ctx.v(ID, "dataset-interp_like-raised:" + type(exc2).__name__, "ds.interp_like(template) for %s raised %s: %s" % (label, type(exc2).__name__, str(exc2)[:150]))
     elif common.is_ds(res2):
